@@ -120,13 +120,14 @@ fn buffered(ctx: &mut Ctx) {
     ctx.note("msg", J::s(hex_short(&msg)));
     ctx.note("pieces", J::Arr(sched.iter().map(|x| J::i(*x as i64)).collect()));
     let key = ctx.key.clone();
-    let r = guard(|| -> Result<(Vec<u8>, Vec<u8>), String> {
+    let r = guard(|| -> Result<(Vec<u8>, Vec<u8>, u64), String> {
         let mut whole = (d.mk)(Ctor::New, &key, &iv).map_err(|_| "ctor")?;
         let mut cut = (d.mk)(Ctor::New, &key, &iv).map_err(|_| "ctor")?;
         let mut w = msg.clone();
         whole.apply(&mut w);
         let mut out = Vec::with_capacity(len);
         let mut off = 0;
+        let mut other_repr = 0u64;
         for &k in &sched {
             let mut piece = Canary::from(&msg[off..off + k]);
             cut.apply(piece.data_mut());
@@ -135,22 +136,22 @@ fn buffered(ctx: &mut Ctx) {
             }
             out.extend_from_slice(piece.data());
             off += k;
+            // (the value of the exported in-block position is an implementation detail - a lazy
+            // implementation may report a full block as b rather than 0 - and C08 is about the
+            // bytes only; it is observed, not judged)
             let (_, pos) = cut.state();
-            if pos >= b || pos != off % b {
-                return Err(format!("after {} bytes the exported position is {} (block size {})", off, pos, b));
+            if pos != off % b {
+                other_repr += 1;
             }
         }
-        let (_, wpos) = whole.state();
-        if wpos != len % b {
-            return Err(format!("after one call of {} bytes the exported position is {}", len, wpos));
-        }
-        Ok((w, out))
+        Ok((w, out, other_repr))
     });
     ctx.st.api_calls += sched.len() as u64 + 1;
     match r {
         Err(p) => ctx.panic_violation(&name, &p),
-        Ok(Err(e)) => ctx.violation(&format!("C08/position/{}", name), e),
-        Ok(Ok((w, out))) => {
+        Ok(Err(e)) => ctx.violation(&format!("C08/canary/{}", name), e),
+        Ok(Ok((w, out, other_repr))) => {
+            ctx.st.count_n("observed.exported-position-is-not-bytes-mod-b(not judged)", other_repr);
             if w != out {
                 let det = diff_desc("concatenated pieces vs one call", &out, &w, b);
                 return ctx.violation(&format!("C08/pieces/{}", name), det);
